@@ -28,13 +28,15 @@ class LocalClass:
 class PyMap:
     """dict with concrete (python object) keys.  default: None or callable(key)->Val."""
 
-    def __init__(self, items=None, default=None, kind="dict"):
+    def __init__(self, items=None, default=None, kind="dict", present=None):
         self.items = dict(items or {})
         self.default = default
         self.kind = kind
+        # present: key -> z3 Bool, for entries that exist only on some merged paths (absent = all True)
+        self.present = dict(present or {})
 
     def copy(self):
-        return PyMap(self.items, self.default, self.kind)
+        return PyMap(self.items, self.default, self.kind, self.present)
 
 
 class Obj:
